@@ -41,6 +41,7 @@ class Ctx:
         self.assumptions = []
         self.rejects = []       # dicts: sig, obs, replay case
         self.known_hits = {}
+        self.extras = {}        # (file, line, signature) -> extra field printed by the judge after the signature
         self.counter = 0
 
     def cleanup(self):
@@ -177,9 +178,12 @@ class Ctx:
             done = None
             bad = 0
             for line in out.splitlines():
-                m = re.match(r'^"REJECT\|(\d+)\|(.*)"$', line)
+                m = re.match(r'^"REJECT\|(\d+)\|([^|]*)(?:\|(.*))?"$', line)
                 if m:
-                    rej.append((f, int(m.group(1)), m.group(2).replace('\\"', '"').replace("\\\\", "\\")))
+                    sig = m.group(2).replace('\\"', '"').replace("\\\\", "\\")
+                    rej.append((f, int(m.group(1)), sig))
+                    if m.group(3) is not None:
+                        self.extras[(f, int(m.group(1)), sig)] = m.group(3)
                     bad += 1
                     continue
                 m = re.match(r'^<<"DONE", (\d+), (\d+)>>$', line)
